@@ -375,6 +375,141 @@ pub fn handle(op: &str, args: &[&str]) -> Result<String, String> {
             };
             Ok(format!("ok {} {}", dump_style(&st), bit(c.true_color)))
         }
+        // style.paint_lines <state> <homolog 0|1> <empty-line style ansi | -> <bg no|ansi|spaces> <ln 0|1>
+        //                   <nsyn> {x<text>}* <ndiff> {<ansi> x<text>}*          (current cfg)
+        //   One line through the real Painter::paint_lines. state: m z p (Unified, no raw line) | M Z P (the state
+        //   keeps a raw line) | mw zw pw (wrapped) | cm:x<prefix> cz:… cp:… (combined diff, merge prefix, not in a
+        //   conflict) | b (blame) | u (Unknown). Syntax sections carry config.null_syntect_style. ln = 1: with a
+        //   LineNumbersData initialised for `@@ -3,4 +5,6 @@` of file `f.rs`.
+        //   -> ok x<what was pushed to the output buffer> <available_terminal_width>
+        //         <background_color_extends_to_terminal_width 0|1> <keep_plus_minus_markers 0|1> <line_numbers 0|1>
+        //         <k> {<ansi> x<text>}*
+        //      (the Config fields paint_lines reads; the k strings format_and_paint_line_numbers returns for this
+        //      state: the gutter, an input of the model)
+        ("paint_lines", [state, homolog, empty, bg, ln, rest @ ..]) => {
+            use crate::delta::{DiffType, InMergeConflict, MergeParents, State};
+            use crate::features::line_numbers::{self, LineNumbersData};
+            use crate::features::side_by_side::ansifill;
+            use crate::paint::{BgFillMethod, BgShouldFill};
+            let config = super::config();
+            let mut i = 0;
+            let nsyn = num(rest.get(i).ok_or("paint_lines: arity")?)?;
+            i += 1;
+            let mut syn_texts = Vec::new();
+            for _ in 0..nsyn {
+                syn_texts.push(unhex(rest.get(i).ok_or("paint_lines: arity")?)?);
+                i += 1;
+            }
+            let ndiff = num(rest.get(i).ok_or("paint_lines: arity")?)?;
+            i += 1;
+            let mut diff_owned = Vec::new();
+            for _ in 0..ndiff {
+                let a = parse_ansi(rest.get(i).ok_or("paint_lines: arity")?)?;
+                let t = unhex(rest.get(i + 1).ok_or("paint_lines: arity")?)?;
+                diff_owned.push((
+                    Style {
+                        ansi_term_style: a,
+                        ..Style::new()
+                    },
+                    t,
+                ));
+                i += 2;
+            }
+            if i != rest.len() {
+                return Err("paint_lines: trailing fields".into());
+            }
+            let text: String = diff_owned.iter().map(|(_, t)| t.as_str()).collect();
+            let raw = || Some(text.clone());
+            let combined = |f: &str| -> Result<DiffType, String> {
+                Ok(DiffType::Combined(
+                    MergeParents::Prefix(unhex(f)?),
+                    InMergeConflict::No,
+                ))
+            };
+            let st = match *state {
+                "m" => State::HunkMinus(DiffType::Unified, None),
+                "z" => State::HunkZero(DiffType::Unified, None),
+                "p" => State::HunkPlus(DiffType::Unified, None),
+                "M" => State::HunkMinus(DiffType::Unified, raw()),
+                "Z" => State::HunkZero(DiffType::Unified, raw()),
+                "P" => State::HunkPlus(DiffType::Unified, raw()),
+                "mw" => State::HunkMinusWrapped,
+                "zw" => State::HunkZeroWrapped,
+                "pw" => State::HunkPlusWrapped,
+                "b" => State::Blame("key".to_string()),
+                "u" => State::Unknown,
+                s if s.starts_with("cm:") => State::HunkMinus(combined(&s[3..])?, None),
+                s if s.starts_with("cz:") => State::HunkZero(combined(&s[3..])?, None),
+                s if s.starts_with("cp:") => State::HunkPlus(combined(&s[3..])?, None),
+                s => return Err(format!("bad state: {s}")),
+            };
+            let empty_style = if *empty == "-" {
+                None
+            } else {
+                Some(Style {
+                    ansi_term_style: parse_ansi(empty)?,
+                    ..Style::new()
+                })
+            };
+            let bg = match *bg {
+                "no" => BgShouldFill::No,
+                "ansi" => BgShouldFill::With(BgFillMethod::TryAnsiSequence),
+                "spaces" => BgShouldFill::With(BgFillMethod::Spaces),
+                s => return Err(format!("bad bg: {s}")),
+            };
+            let new_data = || {
+                let mut d = LineNumbersData::from_format_strings(
+                    &config.line_numbers_format,
+                    ansifill::UseFullPanelWidth::new(config),
+                );
+                d.initialize_hunk(&[(3, 4), (5, 6)], "f.rs".to_string());
+                d
+            };
+            let mut gutter = String::from("0");
+            if flag(ln)? {
+                let mut probe = new_data();
+                if let Some((numbers, styles)) =
+                    line_numbers::linenumbers_and_styles(&mut probe, &st, config, true)
+                {
+                    let strings = line_numbers::format_and_paint_line_numbers(
+                        &probe, None, styles, numbers, config,
+                    );
+                    gutter = format!("{}", strings.len());
+                    for s in &strings {
+                        gutter.push_str(&format!(" {} {}", dump_ansi(s.style_ref()), hex(s)));
+                    }
+                }
+            }
+            let lines = vec![(text.clone(), st)];
+            let syn: Vec<Vec<(syntect::highlighting::Style, &str)>> = vec![syn_texts
+                .iter()
+                .map(|t| (config.null_syntect_style, t.as_str()))
+                .collect()];
+            let diff: Vec<Vec<(Style, &str)>> =
+                vec![diff_owned.iter().map(|(s, t)| (*s, t.as_str())).collect()];
+            let mut out = String::new();
+            let mut data = if flag(ln)? { Some(new_data()) } else { None };
+            Painter::paint_lines(
+                &lines,
+                &syn,
+                &diff,
+                &[flag(homolog)?],
+                &mut out,
+                config,
+                &mut data.as_mut(),
+                empty_style,
+                bg,
+            );
+            Ok(format!(
+                "ok {} {} {} {} {} {}",
+                hex(&out),
+                config.available_terminal_width,
+                bit(config.background_color_extends_to_terminal_width),
+                bit(config.keep_plus_minus_markers),
+                bit(config.line_numbers),
+                gutter
+            ))
+        }
         _ => {
             let _ = hexb;
             Err(format!("unknown op or arity: style.{op}"))
